@@ -670,3 +670,38 @@ func init() {
 		Floors:      map[string]int64{"histories_checked": 100, "client_lookups": 1000, "pipeline_interests": 1000},
 	})
 }
+
+// racePostDiagnostic counts race-detector report blocks for properties where they are diagnostics only.
+func racePostDiagnostic(workDir string, m *h.Merged) {
+	files, _ := filepath.Glob(filepath.Join(workDir, "*.race.*"))
+	total := 0
+	pairs := map[string]int{}
+	for _, f := range files {
+		b, err := os.ReadFile(f)
+		if err != nil {
+			continue
+		}
+		for _, blk := range strings.Split(string(b), "WARNING: DATA RACE")[1:] {
+			total++
+			var fns []string
+			for _, ln := range strings.Split(blk, "\n") {
+				if mm := raceFuncRe.FindStringSubmatch(ln); mm != nil && strings.HasPrefix(mm[1], "github.com/named-data/ndnd/") {
+					fns = append(fns, strings.TrimPrefix(mm[1], "github.com/named-data/ndnd/"))
+					if len(fns) == 2 {
+						break
+					}
+				}
+			}
+			pairs[strings.Join(fns, " <-> ")]++
+		}
+	}
+	m.Counters["race_reports_diagnostic"] = int64(total)
+	if len(pairs) > 0 {
+		var ks []string
+		for k, v := range pairs {
+			ks = append(ks, fmt.Sprintf("%s (%d)", k, v))
+		}
+		sort.Strings(ks)
+		m.Notes["race_reports_diagnostic"] = strings.Join(ks, " ; ")
+	}
+}
